@@ -53,6 +53,7 @@ def coq_pieces(ps) -> str:
 
 class FStr:
     """Classify the pieces of an f-string / string constant given the meaning of the names in scope."""
+    module_funcs: dict = {}     # module-level `def f(x): return <text expression over x>` of keyvalues.py: inlined at calls
 
     def __init__(self, self_name: str, varmap: dict[str, str]) -> None:
         self.self_name = self_name
@@ -81,6 +82,30 @@ class FStr:
         if isinstance(e, ast.Call) and isinstance(e.func, ast.Name) and e.func.id == 'escape_text' \
                 and len(e.args) == 1 and not e.keywords and self.field(e.args[0]) is not None:
             return [('Esc', self.field(e.args[0]))]
+        # a text-building helper of the same module applied to a field or a known variable: its body, with the parameter
+        # replaced by the argument (`def _quoted(s): return f'"{escape_text(s)}"'`)
+        if isinstance(e, ast.Call) and isinstance(e.func, ast.Name) and e.func.id in self.module_funcs \
+                and len(e.args) == 1 and not e.keywords and getattr(self, '_depth', 0) < 4 \
+                and (self.field(e.args[0]) is not None or (isinstance(e.args[0], ast.Name) and self.simple(e.args[0]) is not None)):
+            import copy
+            hf = self.module_funcs[e.func.id]
+            hb = _strip_doc(hf.body)
+            a = hf.args
+            if len(a.args) == 1 and not (a.posonlyargs or a.kwonlyargs or a.vararg or a.kwarg) and len(hb) == 1 \
+                    and isinstance(hb[0], ast.Return) and hb[0].value is not None:
+                par = a.args[0].arg
+
+                class Sub(ast.NodeTransformer):
+                    def visit_Name(self, n):
+                        return copy.deepcopy(e.args[0]) if n.id == par else n
+                body_ = Sub().visit(copy.deepcopy(hb[0].value))
+                self._depth = getattr(self, '_depth', 0) + 1
+                try:
+                    return self.pieces(ast.fix_missing_locations(body_))
+                except TranslateError:
+                    return None
+                finally:
+                    self._depth -= 1
         return None
 
     def pieces(self, node: ast.AST) -> list:
@@ -88,6 +113,44 @@ class FStr:
             return [('Lit', node.value)] if node.value else []
         if isinstance(node, ast.BinOp) and isinstance(node.op, ast.Add):
             return self._merge(self.pieces(node.left) + self.pieces(node.right))
+        # 'lit{}lit{}'.format(a, b)  and  'lit%slit%s' % (a, b): the same text as the f-string with a, b in the holes
+        # (only plain positional holes `{}` / `%s`; anything else is a piece the model does not know: POther)
+        parts = args = None         # parts: [(literal, has_hole)]
+        if isinstance(node, ast.Call) and isinstance(node.func, ast.Attribute) and node.func.attr == 'format' \
+                and isinstance(node.func.value, ast.Constant) and isinstance(node.func.value.value, str) and not node.keywords \
+                and not any(isinstance(a, ast.Starred) for a in node.args):
+            import string
+            args, parts = list(node.args), []
+            try:
+                for lit, field, spec, conv in string.Formatter().parse(node.func.value.value):     # resolves {{ and }}
+                    if field is None:
+                        parts.append((lit, False))
+                    elif field == '' and not spec and conv is None:
+                        parts.append((lit, True))
+                    else:
+                        return [('Other', 'format() template with named / indexed / converted fields')]
+            except ValueError:
+                return [('Other', 'malformed format() template')]
+        elif isinstance(node, ast.BinOp) and isinstance(node.op, ast.Mod) and isinstance(node.left, ast.Constant) \
+                and isinstance(node.left.value, str):
+            args = list(node.right.elts) if isinstance(node.right, ast.Tuple) else [node.right]
+            segs = node.left.value.replace('%%', '\0').split('%s')
+            if any('%' in x for x in segs):
+                return [('Other', '%-template with conversions other than %s')]
+            parts = [(x.replace('\0', '%'), i < len(segs) - 1) for i, x in enumerate(segs)]
+        if parts is not None:
+            if sum(1 for _, h in parts if h) != len(args):
+                return [('Other', 'template / argument count mismatch')]
+            out_: list = []
+            k = 0
+            for lit, hole in parts:
+                if lit:
+                    out_.append(('Lit', lit))
+                if hole:
+                    sp = self.simple(args[k])
+                    out_ += sp if sp is not None else [('Other', ast.dump(args[k])[:60])]
+                    k += 1
+            return self._merge(out_)
         if not isinstance(node, ast.JoinedStr):
             sp = self.simple(node)
             if sp is None:
@@ -124,6 +187,19 @@ def _root_name(node: ast.AST):
     while isinstance(node, (ast.Attribute, ast.Subscript, ast.Call)):
         node = node.func if isinstance(node, ast.Call) else node.value
     return node.id if isinstance(node, ast.Name) else None
+
+
+def _pure_helper(name: str) -> bool:
+    """A module-level `def f(x): return <expr>` whose expression calls nothing but the pure functions: it cannot store
+    to or mutate what it is given."""
+    hf = FStr.module_funcs.get(name)
+    if hf is None:
+        return False
+    hb = _strip_doc(hf.body)
+    if len(hb) != 1 or not isinstance(hb[0], ast.Return) or hb[0].value is None:
+        return False
+    return all(isinstance(c.func, ast.Name) and c.func.id in PURE_FUNCS
+               for c in ast.walk(hb[0].value) if isinstance(c, ast.Call))
 
 
 def census(fn: ast.FunctionDef, self_name: str) -> tuple[list, list, list]:
@@ -176,7 +252,7 @@ def census(fn: ast.FunctionDef, self_name: str) -> tuple[list, list, list]:
                         if isinstance(a, ast.Name) and a.id in tree_names:
                             raise _err(n, f'tree object passed to {ast.unparse(f)}')
             elif isinstance(f, ast.Name):
-                if f.id not in PURE_FUNCS:
+                if f.id not in PURE_FUNCS and not _pure_helper(f.id):
                     raise _err(n, f'unclassified call {f.id}()')
             else:
                 raise _err(n, 'unclassified call expression')
@@ -590,15 +666,12 @@ def tr_export(fn: ast.FunctionDef):
             handed_on.add(id(n.body[0].value))
     for n in ast.walk(fn):
         if isinstance(n, ast.Yield) and n.value is not None and id(n) not in handed_on:
-            if isinstance(n.value, (ast.JoinedStr, ast.Constant)):
-                ys.append((n.lineno, fs.pieces(n.value)))
-            else:
-                raise _err(n, 'export() yields something that is not a string literal/f-string')
+            ys.append((n.lineno, fs.pieces(n.value)))      # fails closed on text it cannot classify
     ys.sort(key=lambda t: t[0])
     return ys, self_name
 
 
-def tr_parse(fn: ast.FunctionDef) -> dict:
+def tr_parse(fn: ast.FunctionDef, tree: ast.Module | None = None, cls: ast.ClassDef | None = None) -> dict:
     """(The names of the loop's variables are the roles found by translate/c01_kvloop.py in the prologue of parse:
     a renamed local changes nothing.)
     Decisive sites of Keyvalues.parse:
@@ -609,8 +682,8 @@ def tr_parse(fn: ast.FunctionDef) -> dict:
       * the two flag-replacement tests `can_flag_replace and ... cur_block_contents[-1] ...`: whether the list is
         tested for emptiness before it is indexed."""
     out: dict = {}
-    from translate.c01_kvloop import LoopTr
-    roles = LoopTr(fn)
+    from translate.c01_kvloop import LoopTr, module_helpers
+    roles = LoopTr(fn, module_helpers(tree, cls) if tree is not None and cls is not None else None)
     v_cfr, v_cont, v_tok, v_cur = roles.cfrv, roles.contv, roles.tokenizer, roles.curv
     # --- Tokenizer(...) construction
     calls = [n for n in ast.walk(fn) if isinstance(n, ast.Call) and _is_name(n.func, 'Tokenizer')]
@@ -656,7 +729,22 @@ def tr_parse(fn: ast.FunctionDef) -> dict:
     # -> BTChars, anything else -> BTOther.  No such test at all: the empty set (the model then never reports it).
     roles.body_tree()
 
-    def charset(e):
+    def charset(e, depth=0):
+        # a predicate of the same module applied to the token text: `def f(s): return <expr over s>` is inlined
+        if isinstance(e, ast.Call) and isinstance(e.func, ast.Name) and depth < 4 \
+                and tree is not None and len(e.args) == 1 and not e.keywords and isinstance(e.args[0], ast.Name):
+            hf = next((n for n in tree.body if isinstance(n, ast.FunctionDef) and n.name == e.func.id), None)
+            hb = _strip_doc(hf.body) if hf is not None else []
+            if hf is not None and len(hf.args.args) == 1 and not hf.args.kwonlyargs and not hf.args.vararg \
+                    and not hf.args.kwarg and len(hb) == 1 and isinstance(hb[0], ast.Return) and hb[0].value is not None:
+                import copy
+                par, arg = hf.args.args[0].arg, e.args[0].id
+                body_ = copy.deepcopy(hb[0].value)
+                for n in ast.walk(body_):
+                    if isinstance(n, ast.Name) and n.id == par:
+                        n.id = arg
+                return charset(body_, depth + 1)
+            return None
         parts = e.values if isinstance(e, ast.BoolOp) and isinstance(e.op, ast.Or) else [e]
         chars = []
         for c in parts:
@@ -1008,6 +1096,7 @@ def translate() -> tuple[str, dict]:
     cls = next((n for n in tree.body if isinstance(n, ast.ClassDef) and n.name == 'Keyvalues'), None)
     if cls is None:
         raise TranslateError('keyvalues.py: class Keyvalues not found')
+    FStr.module_funcs = {n.name: n for n in tree.body if isinstance(n, ast.FunctionDef)}
     f_ser = _find_method(cls, 'serialise')
     f_in = _find_method(cls, '_serialise')
     f_exp = _find_method(cls, 'export')
@@ -1016,7 +1105,7 @@ def translate() -> tuple[str, dict]:
     inner, s2 = tr_inner(f_in)
     yields, s3 = tr_export(f_exp)
     xs = tr_export_struct(f_exp)
-    psites = tr_parse(f_parse)
+    psites = tr_parse(f_parse, tree, cls)
     read_flag_known = tr_read_flag(tree)
     stores, muts, info = [], [], []
     for fn, sn in ((f_ser, s1), (f_in, s2), (f_exp, s3)):
